@@ -104,7 +104,21 @@ TplTab == <<
   [q |-> "\"", c |-> "{{ nn }}{{ f }}",                  single |-> FALSE, inner |-> <<>>],
   [q |-> "'",  c |-> "{% firstof nn h %}",               single |-> FALSE, inner |-> <<>>],
   [q |-> "\"", c |-> "{{ z }}",                          single |-> TRUE,  inner |-> <<"z">>],
-  [q |-> "\"", c |-> "{{ es }}",                         single |-> TRUE,  inner |-> <<"es">>] >>
+  [q |-> "\"", c |-> "{{ es }}",                         single |-> TRUE,  inner |-> <<"es">>],
+  \* 23.. : filters and tags of the libraries in Loaded.  A nested string is a template at the place
+  \* of the tag: what {% load %} made available there is available inside it, with the stock meaning.
+  [q |-> "\"", c |-> "{{ amp|vfwrap }}",                 single |-> TRUE,  inner |-> <<"amp|vfwrap">>],
+  [q |-> "'",  c |-> "{{ x|vfwrap:s }} {{ x|unlocalize }}", single |-> FALSE, inner |-> <<>>],
+  [q |-> "\"", c |-> "{% vfjoin x 'a&b' s %}",           single |-> FALSE, inner |-> <<>>],
+  [q |-> "\"", c |-> "{% trans 'k 2' %}",                single |-> FALSE, inner |-> <<>>],
+  [q |-> "'",  c |-> "{{ x|unlocalize }}",               single |-> TRUE,  inner |-> <<"x|unlocalize">>],
+  [q |-> "\"", c |-> "{% vfjoin it %}/{% trans 'k' %}",  single |-> FALSE, inner |-> <<>>] >>
+
+\* Template-tag libraries that a {% load %} in front of the tag has made available where every
+\* generated tag stands (the harness registers "vf_c02_ext": filter vfwrap[:arg], simple tag vfjoin;
+\* i18n and l10n are Django's).  Leaves and nested strings may use their filters and tags and mean
+\* what they mean in a stock Django template after the same {% load %}.
+Loaded == <<"vf_c02_ext", "i18n", "l10n">>
 
 (* ------------------------------ context ------------------------------- *)
 \* Values are tagged: int i, str s, none, bool b, safe s (a str marked safe for HTML output - top
@@ -143,7 +157,45 @@ Ctx == [x    |-> I(7),
         hs   |-> L(<<St("x&y"), Nil, St("<"), I(0)>>),
         dn   |-> D(<<E(Nil, St("a&b")), E(St("<k>"), Nil), E(I(0), B(FALSE)), E(St(""), St("'"))>>),
         dh   |-> D(<<E(St("t"), St("R&D")), E(St("u"), Nil), E(St("a&b"), St("")), E(St("<w>"), I(0)),
-                     E(St("it's"), B(FALSE))>>)]
+                     E(St("it's"), B(FALSE))>>),
+        \* loop variable and the sequence it runs over (see LoopCtx)
+        it   |-> St("0"),
+        its  |-> L(<<St("1"), St("2")>>)]
+\* A compiled template is rendered many times: the same tag must hand over what its arguments
+\* denote in EACH context it is rendered with.  Ctx2 is a second context for the same templates:
+\* every variable has another value (of the same kind: int/str/.. may change, a list stays a list
+\* and a dict a dict, the str-keyed dicts stay str-keyed), None and the falsy values sit elsewhere.
+Ctx2 == [x    |-> I(8),
+         s    |-> St("wo rld"),
+         xs   |-> L(<<St("c"), I(2), I(3)>>),
+         ys   |-> L(<<L(<<I(4)>>), St("e f"), I(5)>>),
+         e0   |-> L(<<I(6)>>),
+         d    |-> D(<<E(St("k1"), I(2)), E(St("k3"), St("w"))>>),
+         d2   |-> D(<<E(St("@m.n"), L(<<I(3)>>)), E(St("y"), I(1))>>),
+         only |-> I(6),
+         o    |-> D(<<E(St("p"), D(<<E(St("q"), I(10))>>))>>),
+         nn   |-> St("not none"),
+         f    |-> B(TRUE),
+         z    |-> I(5),
+         es   |-> St("e"),
+         amp  |-> St("Q&A <2>"),
+         h    |-> St("<i>'x'</i>"),
+         sf   |-> Sf("<u>&lt;</u>"),
+         hs   |-> L(<<St(">"), I(1), Nil>>),
+         dn   |-> D(<<E(St("n"), Nil), E(Nil, St("<")), E(I(1), B(TRUE))>>),
+         dh   |-> D(<<E(St("t"), St("x<y")), E(St("u"), I(0)), E(St("a&b"), Nil), E(St("v&w"), St("'"))>>),
+         it   |-> St("9"),
+         its  |-> L(<<St("3"), St("4")>>)]
+Ctxs == <<Ctx, Ctx2>>
+\* {% for it in its %} TAG {% endfor %}: the tag is evaluated once per item, in the context where
+\* the loop variable is bound to that item.
+LoopVar == "it"
+LoopOver == "its"
+LoopCtx(c, i) == [c EXCEPT !.it = c.its.items[i]]
+LoopCtxs == [k \in 1..Len(Ctxs) |-> [i \in 1..Len(Ctxs[k].its.items) |-> LoopCtx(Ctxs[k], i)]]
+CtxsOK == /\ DOMAIN Ctx2 = DOMAIN Ctx
+          /\ \A n \in DOMAIN Ctx : /\ Ctx2[n] # Ctx[n]
+                                   /\ (Ctx[n].t \in {"list", "dict"} \/ Ctx2[n].t \in {"list", "dict"}) => Ctx2[n].t = Ctx[n].t
 \* `None`, `True` and `False` are written like variables and mean the Python constants in a stock
 \* Django expression (as every leaf they are valued by stock Django): Var("None"), Var("False").
 
@@ -274,29 +326,30 @@ Leaf(l) == IF l.t = "tpl"
                  ELSE [t |-> "render", e |-> <<TplTab[l.id].c>>])
            ELSE [t |-> "leaf", e |-> LeafText(l, Canon)]
 
-RECURSIVE DV(_), DItems(_, _), DEntries(_, _)
+\* The denotation is per context c (a record like Ctx): Denote(args) is the one in Ctx.
+RECURSIVE DV(_, _), DItems(_, _, _), DEntries(_, _, _)
 \* Operand of a spread: a literal (its items), a context variable (the items of its value) or
 \* a filter chain - opaque here: [t |-> "splice", of |-> leaf] stands for "the items of that value".
 Splice(v) == [t |-> "splice", of |-> Leaf(v)]
-ListOperand(v) == CASE v.t = "list" -> DItems(v.items, 1)
-                    [] v.t = "var"  -> Ctx[v.n].items
-                    [] OTHER        -> <<Splice(v)>>
-DictOperand(v) == CASE v.t = "dict" -> DEntries(v.items, 1)
-                    [] v.t = "var"  -> Ctx[v.n].items
-                    [] OTHER        -> <<Splice(v)>>
-DV(v) ==
-  CASE v.t = "list" -> L(DItems(v.items, 1))
-    [] v.t = "dict" -> D(DEntries(v.items, 1))
+ListOperand(c, v) == CASE v.t = "list" -> DItems(c, v.items, 1)
+                       [] v.t = "var"  -> c[v.n].items
+                       [] OTHER        -> <<Splice(v)>>
+DictOperand(c, v) == CASE v.t = "dict" -> DEntries(c, v.items, 1)
+                       [] v.t = "var"  -> c[v.n].items
+                       [] OTHER        -> <<Splice(v)>>
+DV(c, v) ==
+  CASE v.t = "list" -> L(DItems(c, v.items, 1))
+    [] v.t = "dict" -> D(DEntries(c, v.items, 1))
     [] OTHER        -> Leaf(v)
-DItems(items, i) ==
+DItems(c, items, i) ==
   IF i > Len(items) THEN <<>>
-  ELSE (IF items[i].t = "spread" THEN ListOperand(items[i].v) ELSE <<DV(items[i])>>)
-       \o DItems(items, i + 1)
-DEntries(items, i) ==
+  ELSE (IF items[i].t = "spread" THEN ListOperand(c, items[i].v) ELSE <<DV(c, items[i])>>)
+       \o DItems(c, items, i + 1)
+DEntries(c, items, i) ==
   IF i > Len(items) THEN <<>>
-  ELSE (IF items[i].t = "spread" THEN DictOperand(items[i].v)
-        ELSE <<E(DV(items[i].k), DV(items[i].v))>>)
-       \o DEntries(items, i + 1)
+  ELSE (IF items[i].t = "spread" THEN DictOperand(c, items[i].v)
+        ELSE <<E(DV(c, items[i].k), DV(c, items[i].v))>>)
+       \o DEntries(c, items, i + 1)
 
 \* Does a top-level spread operand yield positional values (list) or keyword values (dict)?
 \* the filters used on spread operands keep the kind; a string that is a single {{ var }} tag
@@ -306,37 +359,42 @@ TplVar(v) == v.t = "tpl" /\ TplTab[v.id].single /\ Len(TplTab[v.id].inner) = 1
 SpreadBase(v) == IF v.t = "filt" THEN v.b ELSE IF TplVar(v) THEN Var(TplTab[v.id].inner[1]) ELSE v
 IsListy(v) == v.t = "list" \/ (SpreadBase(v).t = "var" /\ Ctx[SpreadBase(v).n].t = "list")
 \* every key of the dict variable n is a str (only such a dict can become keyword arguments)
-StrKeyed(n) == Ctx[n].t = "dict" /\ \A i \in 1..Len(Ctx[n].items) : Ctx[n].items[i].k.t = "str"
+\* (in every context the templates are rendered with)
+StrKeyed(n) == \A k \in 1..Len(Ctxs) : /\ Ctxs[k][n].t = "dict"
+                                        /\ \A i \in 1..Len(Ctxs[k][n].items) : Ctxs[k][n].items[i].k.t = "str"
 Name(s) == [t |-> "name", s |-> s]
 
-RECURSIVE DPos(_, _), DKws(_, _), AggOf(_, _, _), Prefixes(_, _, _)
-DPos(args, i) ==
+RECURSIVE DPos(_, _, _), DKws(_, _, _), AggOf(_, _, _, _), Prefixes(_, _, _)
+DPos(c, args, i) ==
   IF i > Len(args) THEN <<>>
   ELSE LET a == args[i] IN
-       (CASE a.t = "pos" -> <<DV(a.v)>>
-          [] a.t = "spread" /\ IsListy(a.v) -> ListOperand(a.v)
-          [] OTHER -> <<>>) \o DPos(args, i + 1)
-DKws(args, i) ==         \* plain keywords and spread dictionaries, in order
+       (CASE a.t = "pos" -> <<DV(c, a.v)>>
+          [] a.t = "spread" /\ IsListy(a.v) -> ListOperand(c, a.v)
+          [] OTHER -> <<>>) \o DPos(c, args, i + 1)
+DKws(c, args, i) ==         \* plain keywords and spread dictionaries, in order
   IF i > Len(args) THEN <<>>
   ELSE LET a == args[i] IN
-       (CASE a.t = "kw" -> <<E(Name(a.key), DV(a.v))>>
-          [] a.t = "spread" /\ ~IsListy(a.v) -> DictOperand(a.v)
-          [] OTHER -> <<>>) \o DKws(args, i + 1)
+       (CASE a.t = "kw" -> <<E(Name(a.key), DV(c, a.v))>>
+          [] a.t = "spread" /\ ~IsListy(a.v) -> DictOperand(c, a.v)
+          [] OTHER -> <<>>) \o DKws(c, args, i + 1)
 Prefixes(args, i, seen) ==   \* aggregate prefixes in order of first appearance
   IF i > Len(args) THEN <<>>
   ELSE IF args[i].t = "agg" /\ args[i].pre \notin seen
        THEN <<args[i].pre>> \o Prefixes(args, i + 1, seen \cup {args[i].pre})
        ELSE Prefixes(args, i + 1, seen)
-AggOf(args, i, pre) ==
+AggOf(c, args, i, pre) ==
   IF i > Len(args) THEN <<>>
-  ELSE (IF args[i].t = "agg" /\ args[i].pre = pre THEN <<E(St(args[i].key), DV(args[i].v))>> ELSE <<>>)
-       \o AggOf(args, i + 1, pre)
+  ELSE (IF args[i].t = "agg" /\ args[i].pre = pre THEN <<E(St(args[i].key), DV(c, args[i].v))>> ELSE <<>>)
+       \o AggOf(c, args, i + 1, pre)
 
-Denote(args) ==
+DenoteIn(c, args) ==
   LET ps == Prefixes(args, 1, {}) IN
-  [args   |-> DPos(args, 1),
-   kwargs |-> DKws(args, 1) \o [j \in 1..Len(ps) |-> E(Name(ps[j]), D(AggOf(args, 1, ps[j])))],
+  [args   |-> DPos(c, args, 1),
+   kwargs |-> DKws(c, args, 1) \o [j \in 1..Len(ps) |-> E(Name(ps[j]), D(AggOf(c, args, 1, ps[j])))],
    flags  |-> {args[i].n : i \in {j \in 1..Len(args) : args[j].t = "flag"}}]
+Denote(args) == DenoteIn(Ctx, args)
+\* The loop variable is never the operand of a spread, so an iteration denotes what its context does.
+\* (checked by MC_C02!LoopDenotes)
 
 (* ------------------------------ admissible outcomes ------------------- *)
 \* Whitespace after * / ** is documented for a *variable* operand (`[ * spread ]`); before a
@@ -398,7 +456,7 @@ DevSpread(args) ==
   LET as == DevSpreadArgs(args)
       \* (aggregated keywords are moved behind everything else before the order is checked,
       \*  and a spread dictionary without entries contributes no keyword)
-      strict(a) == a.t = "kw" \/ (a.t = "spread" /\ ~IsListy(a.v) /\ Len(DictOperand(a.v)) > 0)
+      strict(a) == a.t = "kw" \/ (a.t = "spread" /\ ~IsListy(a.v) /\ Len(DictOperand(Ctx, a.v)) > 0)
       pk == \E i \in 1..Len(as), j \in 1..Len(as) : i < j /\ strict(as[i]) /\ IsPosish(as[j]) IN
   [name |-> "top-level-spread-with-filter:passed-unspread", paths |-> {"probe", "comp", "short"},
    \* a positional after a keyword is refused: TypeError, or SyntaxError after a non-identifier key
